@@ -236,7 +236,7 @@ func cyclicTerm(t Term, visited []Term, env *Env) bool {
 	t = env.Resolve(t)
 
 	for _, v := range visited {
-		if t == v {
+		if id(t) == id(v) { // Some representations of terms, e.g. lists backed by slices, aren't comparable with ==.
 			return true
 		}
 	}
